@@ -292,7 +292,14 @@ type GraphOpts struct {
 	UIDs        bool // _UID / _FID identifiers (well-formed, malformed, shared)
 	Sources     bool
 	WildDates   bool // keyworded, ranges, unparsable
+	// Big > 0: about one graph in Big has BigLo..BigHi people (default 25..80), a sixth to a third as
+	// many families and up to 12 children per family
+	Big          int
+	BigLo, BigHi int
 }
+
+// IsBig: the graph came from the Big branch of the generator (class label).
+func (g *GraphBP) IsBig() bool { return len(g.People) >= 20 }
 
 var uidPool = []string{"EE13561DDB204985BFFDEEBF82A5226C5B2E", "EE13561DDB204985BFFDEEBF82A5226C", "6FA1B7A6C32B4BA0B8E2D9A3B1F4C5D7", "00000000000000000000000000000000",
 	"A1B2C3D4E5F60718293A4B5C6D7E8F90", "not-a-uuid", "", "ee13561d-db20-4985-bffd-eebf82a5226c"}
@@ -312,6 +319,15 @@ func Graph(o GraphOpts) *rapid.Generator[*GraphBP] {
 	return rapid.Custom(func(t *rapid.T) *GraphBP {
 		g := &GraphBP{}
 		np := rapid.IntRange(0, o.MaxPeople).Draw(t, "people")
+		minFam, maxFam, maxKids := 0, o.MaxFamilies, 4
+		if o.Big > 0 && rapid.IntRange(0, o.Big-1).Draw(t, "big") == o.Big/2 {
+			lo, hi := o.BigLo, o.BigHi
+			if hi == 0 {
+				lo, hi = 25, 80
+			}
+			np = rapid.IntRange(lo, hi).Draw(t, "bigpeople")
+			minFam, maxFam, maxKids = np/6, np/3, 12
+		}
 		dateGen := SimpleDate(o.YearLo, o.YearHi)
 		if o.WildDates {
 			dateGen = DateValue(o.YearLo, o.YearHi)
@@ -362,7 +378,7 @@ func Graph(o GraphOpts) *rapid.Generator[*GraphBP] {
 		}
 		nf := 0
 		if np > 0 {
-			nf = rapid.IntRange(0, o.MaxFamilies).Draw(t, "families")
+			nf = rapid.IntRange(minFam, maxFam).Draw(t, "families")
 		}
 		pick := func(label string) string {
 			if rapid.IntRange(0, 4).Draw(t, label+"none") == 0 {
@@ -374,7 +390,7 @@ func Graph(o GraphOpts) *rapid.Generator[*GraphBP] {
 			f := &FamilyBP{ID: fmt.Sprintf("%s%d", o.FamPrefix, i+1)}
 			f.Husb = pick("husb")
 			f.Wife = pick("wife")
-			nc := rapid.IntRange(0, 4).Draw(t, "nchildren")
+			nc := rapid.IntRange(0, maxKids).Draw(t, "nchildren")
 			for j := 0; j < nc; j++ {
 				if c := pick("child"); c != "" {
 					f.Children = append(f.Children, c)
